@@ -492,6 +492,10 @@ pub struct RunLog {
     pub step_budget_hit: bool,
     pub all_fed: bool,
     pub ncalls: usize,
+    /// per-call verdict findings (C09): (kind, message)
+    pub findings: Vec<(String, String)>,
+    pub probes: usize,
+    pub outputs_closed: bool,
 }
 
 pub struct DriveOpts {
@@ -505,6 +509,10 @@ pub struct DriveOpts {
     pub drain_free: Sz,
     /// keep every CallObs in the log (C09); otherwise only the last few
     pub keep_calls: bool,
+    /// evaluate the per-call verdict oracles of C09 (handles, misdirected wait, spin)
+    pub verdict_checks: bool,
+    /// drop the downstream ends after this many schedule steps
+    pub close_outputs_at: Option<usize>,
 }
 impl Default for DriveOpts {
     fn default() -> Self {
@@ -515,6 +523,8 @@ impl Default for DriveOpts {
             drain_feed: Sz::All,
             drain_free: Sz::All,
             keep_calls: false,
+            verdict_checks: false,
+            close_outputs_at: None,
         }
     }
 }
@@ -573,6 +583,163 @@ fn call(built: &mut Built, in_schedule: bool) -> CallObs {
     }
 }
 
+fn add_finding(log: &mut RunLog, kind: &str, msg: String) {
+    if !log.findings.iter().any(|f| f.0 == kind) {
+        log.findings.push((kind.to_string(), msg));
+    }
+}
+
+/// C09 oracles evaluated right after a call; may issue probe calls.  Returns false when
+/// the block must not be called any more.
+fn verdict_checks(built: &mut Built, log: &mut RunLog, opts: &DriveOpts, in_schedule: bool) -> bool {
+    let obs = log.calls.last().unwrap().clone();
+    // (b) no window may survive work(): every open stream has exactly its two ends
+    for (i, h) in obs.handles_in.iter().enumerate() {
+        if !built.ins[i].is_closed() && *h != 2 {
+            add_finding(log, "leaked-window", format!("input {i} has {h} handles after work() returned"));
+        }
+    }
+    for (i, h) in obs.handles_out.iter().enumerate() {
+        if !built.outs[i].is_closed() && *h != 2 {
+            add_finding(log, "leaked-window", format!("output {i} has {h} handles after work() returned"));
+        }
+    }
+    if obs.activity() {
+        return true;
+    }
+    // With an end dropped by the harness, consumption/production on that stream is not
+    // observable any more: "no activity" cannot be established.
+    if built.ins.iter().any(|p| p.is_closed()) || built.outs.iter().any(|p| p.is_closed()) {
+        return true;
+    }
+    match obs.verdict {
+        Verdict::Again => {
+            // (d) idle spin: nothing changes between the calls
+            let mut idle = 1;
+            for _ in 0..5 {
+                let o2 = call(built, in_schedule);
+                log.ncalls += 1;
+                let stop = matches!(o2.verdict, Verdict::Eof | Verdict::Panic | Verdict::Error(_));
+                let again_idle = o2.verdict == Verdict::Again && !o2.activity();
+                if o2.verdict == Verdict::Eof {
+                    log.eof_at = Some(log.ncalls);
+                }
+                if let Some(p) = &o2.panic {
+                    log.panic = Some(p.clone());
+                }
+                if let Verdict::Error(e) = &o2.verdict {
+                    log.error = Some(e.clone());
+                }
+                log.calls.push(o2);
+                if stop {
+                    return false;
+                }
+                if again_idle {
+                    idle += 1;
+                } else {
+                    break;
+                }
+            }
+            if idle >= 6 {
+                add_finding(
+                    log,
+                    "idle-spin",
+                    format!(
+                        "6 consecutive calls answered Again without consuming, producing or any change in the stream situation (inputs buffered {:?}, outputs free {:?})",
+                        obs.in_buffered_before, obs.out_free_before
+                    ),
+                );
+            }
+            true
+        }
+        Verdict::WaitStream => {
+            let Some((id, need, _closed)) = obs.named else { return true };
+            // which port?
+            let inp = built.ins.iter().position(|p| p.id() == id);
+            let outp = built.outs.iter().position(|p| p.id() == id);
+            let (satisfied, desc, open) = match (inp, outp) {
+                (Some(i), _) => {
+                    let p = &built.ins[i];
+                    (p.buffered() >= need, format!("input {i} (buffered {}, need {need})", p.buffered()), !p.is_closed())
+                }
+                (_, Some(o)) => {
+                    let p = &built.outs[o];
+                    let free = p.capacity().saturating_sub(p.available());
+                    (free >= need, format!("output {o} (free {free}, need {need})"), !p.is_closed())
+                }
+                _ => {
+                    // a stream the harness does not own (closed ends are not reachable either)
+                    return true;
+                }
+            };
+            if !open {
+                return true;
+            }
+            if satisfied {
+                add_finding(
+                    log,
+                    "misdirected-wait",
+                    format!("work() did nothing and reported a wait on {desc}, which already satisfies the request"),
+                );
+                return true;
+            }
+            if !opts.probe {
+                return true;
+            }
+            // provide exactly what was asked, on that stream alone, and call again
+            let provided = match (inp, outp) {
+                (Some(i), _) => {
+                    let p = &mut built.ins[i];
+                    let missing = need - p.buffered();
+                    if need > p.capacity() || p.pending() < missing || p.free() < missing {
+                        false
+                    } else {
+                        p.feed(missing) == missing
+                    }
+                }
+                (_, Some(o)) => {
+                    let p = &mut built.outs[o];
+                    let free = p.capacity().saturating_sub(p.available());
+                    let missing = need - free;
+                    if need > p.capacity() || p.available() < missing {
+                        false
+                    } else {
+                        p.drain(missing) == missing
+                    }
+                }
+                _ => false,
+            };
+            if !provided {
+                return true;
+            }
+            log.probes += 1;
+            let o2 = call(built, in_schedule);
+            log.ncalls += 1;
+            let stop = matches!(o2.verdict, Verdict::Eof | Verdict::Panic | Verdict::Error(_));
+            if o2.verdict == Verdict::Eof {
+                log.eof_at = Some(log.ncalls);
+            }
+            if let Some(p) = &o2.panic {
+                log.panic = Some(p.clone());
+            }
+            if let Verdict::Error(e) = &o2.verdict {
+                log.error = Some(e.clone());
+            }
+            let bad = !o2.activity() && o2.verdict == Verdict::WaitStream && o2.named.map(|n| n.0 == id && n.1 <= need).unwrap_or(false);
+            log.calls.push(o2);
+            if bad {
+                add_finding(
+                    log,
+                    "wait-not-honoured",
+                    format!("after providing exactly what was asked on {desc}, the next call again did nothing and asked for the same"),
+                );
+            }
+            !stop
+        }
+        _ => true,
+    }
+}
+
 /// Executes a schedule, then drains to quiescence.
 pub fn drive(built: &mut Built, schedule: &[Step], opts: &DriveOpts) -> RunLog {
     let mut log = RunLog {
@@ -589,6 +756,9 @@ pub fn drive(built: &mut Built, schedule: &[Step], opts: &DriveOpts) -> RunLog {
         step_budget_hit: false,
         all_fed: false,
         ncalls: 0,
+        findings: Vec::new(),
+        probes: 0,
+        outputs_closed: false,
     };
     let keep_calls = opts.keep_calls;
     let nin = built.ins.len().max(1);
@@ -637,9 +807,16 @@ pub fn drive(built: &mut Built, schedule: &[Step], opts: &DriveOpts) -> RunLog {
         !stop
     };
 
-    for st in schedule {
+    for (si, st) in schedule.iter().enumerate() {
         if done {
             break;
+        }
+        if opts.close_outputs_at == Some(si) && !log.outputs_closed {
+            for p in built.outs.iter_mut() {
+                p.drain(usize::MAX);
+                p.close();
+            }
+            log.outputs_closed = true;
         }
         match st {
             Step::Feed { port, k } => {
@@ -671,11 +848,17 @@ pub fn drive(built: &mut Built, schedule: &[Step], opts: &DriveOpts) -> RunLog {
             Step::Work => {
                 if !do_call(built, &mut log, true) {
                     done = true;
+                } else if opts.verdict_checks && !verdict_checks(built, &mut log, opts, true) {
+                    done = true;
                 }
             }
             Step::Burst(n) => {
                 for _ in 0..*n {
                     if !do_call(built, &mut log, true) {
+                        done = true;
+                        break;
+                    }
+                    if opts.verdict_checks && !verdict_checks(built, &mut log, opts, true) {
                         done = true;
                         break;
                     }
@@ -724,7 +907,14 @@ pub fn drive(built: &mut Built, schedule: &[Step], opts: &DriveOpts) -> RunLog {
         if !do_call(built, &mut log, false) {
             break;
         }
-        if log.calls.last().unwrap().activity() {
+        let before_probe = log.ncalls;
+        if opts.verdict_checks && !verdict_checks(built, &mut log, opts, false) {
+            break;
+        }
+        if log.ncalls != before_probe && log.calls.last().unwrap().activity() {
+            moved = true;
+        }
+        if log.calls.iter().rev().take(1 + log.ncalls - before_probe).any(|c| c.activity()) {
             moved = true;
         }
         if moved {
